@@ -344,7 +344,7 @@ def step (st : St) (op impl : List String) : St × Verdict :=
     | ["ok"] => (st, .ok)
     | [r] =>
       if r.startsWith "bad:" then
-        (st, .oracle s!"C13: a chat-history snapshot handed to a caller changed when the history was modified afterwards (the caller reads the group's own array without its lock): {r}")
+        (st, .oracle s!"C13,C15: a chat-history snapshot handed to a caller changed when the history was modified afterwards (the caller reads the group's own array without its lock; a join replay that overlaps a chat message or a clearchat skips or repeats entries): {r}")
       else if r.startsWith "env:" then (st, .ok) else (st, .mismatch "ok")
     | _ => (st, .mismatch "ok")
   | ["whipdl"] =>
